@@ -16,7 +16,7 @@ RULE = ('cases: (a) one Calendar(key=None, holidays, weekend, t0, t1, adj) on a 
         'thorough tier: every day of the range for ranges <= 400 days); (b) registry call sequences calendar(key, holidays, weekend, t0, t1) over 2-3 keys with reads, '
         'overwrites, empty holiday lists. Observations (ordinals / error class) are compared in Coq with M_bdays; the oracle recomputes every answer by walking '
         'day by day from the property text and additionally checks on the real code bdays(t, add(t,n)) == n, add(add(t,n),-n) == t for business days, '
-        'add(t,2) == add(add(t,1),1). Results that leave [t0,t1] (KeyError) are outside the property (model reproduces them, oracle ignores them). '
+        'add(t,2) == add(add(t,1),1). Indexed-path (|n|>1) results that leave [t0,t1] (KeyError) are outside the property (model reproduces them, oracle ignores them); a returned date must always be the n-th business day and the single-step path (|n|<=1, no table) must return it even beyond t1/t0. '
         'add(t, 0) is not executed when the code\'s own adjust(t) is a holiday (unbounded loop; model: OutOfFuel). non-trivial = calendar with holidays or '
         'a weekend / registry sequence with an overwrite; distinct by full case')
 EXPLANATION = ('theorems C05_* hold for EVERY holiday predicate, weekend predicate, month function and range: is_bday characterisation; adjust f/p = least/greatest business day '
@@ -74,13 +74,14 @@ class Oracle:
             return f
         return self.prv(t)
     def nth(self, s, n):
-        """n-th business day counted from s, walking one day at a time; None when it leaves [t0, t1]"""
+        """n-th business day counted from s, walking one day at a time (also beyond [t0, t1]: the holiday list is known there too)"""
         d = s; step = 1 if n > 0 else -1; k = abs(n)
         while k > 0:
             d += step
-            if not (self.a <= d <= self.b): return None
             if self.isb(d): k -= 1
         return d
+    def inside(self, d):
+        return self.a <= d <= self.b
     def count(self, x, y):
         """signed number of business days in (x, y]"""
         if y >= x: return sum(1 for d in range(x + 1, y + 1) if self.isb(d))
@@ -140,12 +141,14 @@ class Runner:
         s = self.o.adjust(d, ea)
         if s is not None:
             e = self.o.nth(s, n)
-            if e is not None:
+            # a KeyError is outside the property only on the indexed path (|n| > 1) when the n-th business day leaves [t0, t1];
+            # the single-step path (|n| <= 1) does not use the table and a returned date must always be the right one
+            if st == 'ok' or self.o.inside(e) or abs(n) <= 1:
                 if st != 'ok':
                     self.bad('add(%s, %d, %r) raised %s; counting %d business days from %s gives %s' % (D(d).date(), n, a, st, n, D(s).date(), D(e).date()))
                 elif r != e:
                     self.bad('add(%s, %d, %r) = %s; counting %d business days from %s gives %s' % (D(d).date(), n, a, D(r).date(), n, D(s).date(), D(e).date()))
-                elif laws and self.viol is None:
+                elif laws and self.viol is None and self.o.inside(e):
                     s2, b = call(self.cal.bdays, D(d), D(r), a)
                     if s2 != 'ok' or b != n:
                         self.bad('bdays(%s, add(%s, %d)) = %s, expected %d' % (D(d).date(), D(d).date(), n, b if s2 == 'ok' else s2, n))
